@@ -462,14 +462,36 @@ function!(Xor(a: Boolean, b: Boolean)=>Boolean, ctx=ctx, arg_opts=raw,{
 
 macro_rules! compare_op{
     ($name:ident, $op:tt) =>{
-        function!($name(a: Any, b: Any)=>Boolean, {
-            match (a,b) {
-                (Value::Integer(a),Value::Integer(b)) => Ok((a $op b).into()),
-                (Value::String(a),Value::String(b)) => Ok((a $op b).into()),
-                (Value::Boolean(a),Value::Boolean(b)) => Ok((a $op b).into()),
-                _ => panic!("not implemented")
+        function_head!($name(a: Any, b: Any) => Boolean);
+        impl Callable for $name {
+            // both operands must have the same scalar type
+            fn signature(&self, ctx: ScriptContextRef, args: &[Value]) -> Result<Type, Error> {
+                if args.len() != 2 {
+                    bail!("{} expects 2 arguments, {} provided", stringify!($name), args.len())
+                }
+                let a = args[0].real_type_of(ctx.clone())?;
+                let b = args[1].real_type_of(ctx)?;
+                match (&a, &b) {
+                    (Type::Integer, Type::Integer)
+                    | (Type::String, Type::String)
+                    | (Type::Boolean, Type::Boolean) => Ok(Type::Boolean),
+                    _ => bail!("can not compare {} with {}", a, b),
+                }
             }
-        });
+            fn call(&self, ctx: ScriptContextRef, args: &[Value]) -> Result<Value, Error> {
+                if args.len() != 2 {
+                    bail!("{} expects 2 arguments, {} provided", stringify!($name), args.len())
+                }
+                let a = args[0].real_value_of(ctx.clone())?;
+                let b = args[1].real_value_of(ctx)?;
+                match (a,b) {
+                    (Value::Integer(a),Value::Integer(b)) => Ok((a $op b).into()),
+                    (Value::String(a),Value::String(b)) => Ok((a $op b).into()),
+                    (Value::Boolean(a),Value::Boolean(b)) => Ok((a $op b).into()),
+                    (a, b) => bail!("can not compare {} with {}", a, b),
+                }
+            }
+        }
     }
 }
 
